@@ -96,6 +96,16 @@ thread_local! {
 }
 
 static CURRENT: Mutex<Option<Arc<Sched>>> = Mutex::new(None);
+
+/// A probe the controller runs (on its own thread, while every worker is suspended at a yield
+/// point) right after a worker has executed an access the filter accepts. It may inspect the
+/// data structure and returns diagnoses, which become notes of the run.
+pub type Probe = Box<dyn Fn(&TraceEv) -> Vec<String> + Send>;
+pub static MID_PROBE: Mutex<Option<Probe>> = Mutex::new(None);
+/// Solo policy with `after_store = Some(0)`: the reader starts to run alone right after another
+/// thread has overwritten a cell that held one of these objects (the tree bins present when the
+/// run started): the moment a tree bin has just been forwarded / replaced
+pub static SOLO_TRIGGER_ADDRS: Mutex<Vec<usize>> = Mutex::new(Vec::new());
 static ACTIVE: AtomicUsize = AtomicUsize::new(0);
 
 pub struct GlobalHooks;
@@ -376,7 +386,11 @@ pub enum Policy {
     /// writer stopped while it holds a bin lock or restructures a tree, another reader stopped
     /// while it holds a tree bin's read lock (so that a later writer parks behind it) - and is
     /// released only after `reader` has finished
-    Solo { reader: usize, start: usize, after: usize, freeze: Vec<(usize, usize)> },
+    /// `after_store = Some(n)`: the reader also starts to run alone right after the other threads
+    /// have performed their n-th store / swap / successful CAS that OVERWRITES a non-null bin cell or
+    /// `next` / `first` link (an `Atomic<BinEntry>`): it then sees the state *between* two consecutive stores of a
+    /// writer (publish-then-link, forward-then-fill windows)
+    Solo { reader: usize, start: usize, after: usize, freeze: Vec<(usize, usize)>, after_store: Option<usize> },
     /// a scripted schedule (regression scenarios): run the named thread until a condition on its
     /// next pending access or on the accesses it has performed holds; afterwards round robin
     Script(Vec<ScriptStep>),
@@ -451,6 +465,7 @@ pub fn drive(s: &Arc<Sched>, policy: &Policy, rng: &mut crate::types::Rng, budge
     // thread the script holds back) is abandoned after a while
     let mut script_spent = 0usize;
     let mut own: Vec<usize> = vec![0; n];
+    let mut bin_stores = 0usize;
     loop {
         let unfinished = s.unfinished();
         if unfinished.is_empty() {
@@ -480,7 +495,8 @@ pub fn drive(s: &Arc<Sched>, policy: &Policy, rng: &mut crate::types::Rng, budge
             rr += 1;
             en[rr % en.len()]
         } else { match policy {
-            Policy::Solo { reader, start, after, freeze } => {
+            Policy::Solo { reader, start, after, freeze, after_store } => {
+                let after = &(if after_store.map(|k| bin_stores >= k.max(1)).unwrap_or(false) { 0usize } else { *after });
                 let frozen = |t: usize| !solo_done && freeze.iter().any(|(ft, k)| *ft == t && own[t] >= *k);
                 let others: Vec<usize> = en.iter().copied().filter(|t| t != reader && !frozen(*t)).collect();
                 let reader_unfinished = unfinished.contains(reader);
@@ -569,6 +585,36 @@ pub fn drive(s: &Arc<Sched>, policy: &Policy, rng: &mut crate::types::Rng, budge
             };
             if wrote && rng.chance(3, 4) {
                 hold = Some((pick, 1 + rng.below(8) as usize));
+            }
+        }
+        {
+            // mid-run probe: the access `pick` has just performed
+            let last = {
+                let g = s.inner.lock().unwrap();
+                g.trace.iter().rev().take(12).find(|e| e.tid == pick && is_yield(e.kind)).cloned()
+            };
+            if let Some(ev) = last {
+                // an *overwriting* store: the cell held something (a bin is replaced, forwarded,
+                // unlinked from), which is when a reader can be led astray
+                if ev.what.contains("BinEntry") && ev.seen != 0 && (matches!(ev.kind, Kind::Store | Kind::Swap) || (ev.kind == Kind::Cas && ev.ok)) {
+                    if let Policy::Solo { reader, after_store, .. } = policy {
+                        if pick != *reader {
+                            if *after_store == Some(0) {
+                                if SOLO_TRIGGER_ADDRS.lock().unwrap().contains(&ev.seen) {
+                                    bin_stores = usize::MAX;
+                                }
+                            } else {
+                                bin_stores += 1;
+                            }
+                        }
+                    }
+                }
+                if ev.what == "lock_state" && ev.kind == Kind::Store {
+                    let msgs = MID_PROBE.lock().unwrap().as_ref().map(|p| p(&ev)).unwrap_or_default();
+                    for m in msgs {
+                        s.note(m);
+                    }
+                }
             }
         }
         schedule.push(pick);
